@@ -8,7 +8,8 @@
     oracle <key> <answer>              one observation of the float interpretation (see below)           → ok
     impl <keyhex>                      execImpl of that member in the whole environment                  → value | error
     emit <keyhex> <T> <varTypeHex> <0|1> emitValue of that member (T = type_of outcome, printed type name, type_is(str)) → text <hex> | error
-    unesc <bodyhex>                    decodeOct of a string-literal body (octal escapes only)                → hex
+    unesc <bodyhex>                    decodeEsc of a string-literal body (octal, \\xhh and one-character escapes) → hex
+    joins <lhex> <rhex>                joinsEscape of two bodies                                               → true | false
     py <mode> <keyhex>                 evalPy (mode = py | strict) of that member with the members before it bound → value | error
 
   values:  int <decimal> | float <float.hex from the oracle> | str <hex of the string>
@@ -253,7 +254,8 @@ def step (st : St) : List String → St × String
       | .ok t => (st, match findNeed t with | some n => n | none => "text " ++ Str.hex t)
       | .error er => (st, showErr er)
     | none => (st, "bad-op")
-  | ["unesc", body] => (st, Str.hex (decodeOct (unhexD body)))
+  | ["unesc", body] => (st, Str.hex (decodeEsc (unhexD body)))
+  | ["joins", l, r] => (st, toString (joinsEscape (unhexD l) (unhexD r)))
   | _ => (st, "bad-op")
 
 def run : IO Unit := runFamily step ({} : St)
